@@ -78,6 +78,10 @@ def _configs(tier, full, third=True):
                 for ce in (False, True):
                     for a in two:
                         yield dict(a, block="spacing", region=rg, center=ce, drop=True, form=fm)
+        for r in RED_W:
+            for rg in ("given", "inferred"):
+                for ce in (False, True):
+                    yield dict(red=r, ncomp=2, w=True, block="spacing", region=rg, center=ce, drop=not ce, form="1d", wzero=True)
         # weights of very small / very large magnitude (1/sigma^2 with sigma = 3e4, or 3e-5): seed C09-10, an absolute "all zero" test
         for r in RED_W:
             for c in (1, 2):
@@ -178,6 +182,13 @@ def run(case, rec):
     wts = None
     if case["w"]:
         wts = [np.array([[p + 1.0, (npts - p) + 0.5, 2.0 ** p][c] for p in range(npts)]) * case.get("wscale", 1.0) for c in range(ncomp)]
+    if wts is not None and case.get("wzero"):
+        # weights that are exactly zero for the first member of every block that has company (the block keeps a positive total):
+        # such points still belong to their block, count for its coordinates and for an inferred region (seed C09-14)
+        for mem in B.group(labels).values():
+            if len(mem) >= 2:
+                for w_ in wts:
+                    w_[mem[0]] = 0.0
     extra = np.array([10.0 * p for p in range(npts)])
     form = case["form"]
     shp = (npts,)
